@@ -86,6 +86,9 @@ class Config:
             for p in range(m):
                 L.append("add 0 %d" % p)
         paths = r.sample(PATHS, m)
+        if m >= 2 and r.random() < 0.3:
+            # names containing dots: two different name lists that print as the same dotted path
+            paths[:2] = r.choice([["enc/l0.w", "enc.l0/w"], ["a.b/c", "a/b.c"]])
         names = " ".join(T.stat_names)
         how_same = "near" if (self.clip or self.cross) else "bits"
         copies = []          # (optimizer id, first parameter id)
